@@ -161,6 +161,48 @@ type bridgeGhost struct {
 	Pending   []pendingEvent // events voted in the open block, applied at its EndBlock
 	Debt      map[string]string // denom -> rational string of recorded (known-finding) unbacked amount
 	TimedOutOK map[string]bool // batches whose timeout the hub may legitimately act on
+	// Withdrawn: batches the hub withdrew without an execution event while the external chain would
+	// still accept them (a relayer holds their signatures). Empty on code that satisfies C13.
+	Withdrawn map[string]*wbatch
+	// ObsHeight: reference "observed external height" = height of the last event of the chain that was
+	// applied with a quorum (never what a minority merely claimed).
+	ObsHeight map[string]uint64
+	// FakeAt: chain -> event nonce for which the Byzantine validator already cast its far-ahead claim
+	FakeAt map[string]uint64
+}
+
+// wbatch is what a relayer keeps of a batch once offered for signing.
+type wbatch struct {
+	Chain, Token   string
+	Nonce, Timeout uint64
+	Amts           []string // amounts paid out of custody (cold-storage moves excluded)
+	IDs            []uint64
+}
+
+func cloneW(m map[string]*wbatch) map[string]*wbatch {
+	o := map[string]*wbatch{}
+	for k, v := range m {
+		c := *v
+		o[k] = &c
+	}
+	return o
+}
+
+// stillExecutable: Hub2.sol submitBatch accepts a batch whose nonce is newer than the last executed one of
+// its token while block.number < timeout.
+func (g *bridgeGhost) stillExecutable(w *wbatch) bool {
+	return w.Nonce > g.LastExec[w.Chain+"|"+w.Token] && g.ExtHeight[w.Chain] < w.Timeout
+}
+
+func (g *bridgeGhost) withdrawnKeys() []string {
+	var ks []string
+	for k, w := range g.Withdrawn {
+		if g.stillExecutable(w) {
+			ks = append(ks, k)
+		}
+	}
+	sort.Strings(ks)
+	return ks
 }
 
 type pendingEvent struct {
@@ -171,6 +213,7 @@ type pendingEvent struct {
 	Recv  string
 	Token string
 	Nonce uint64
+	EvNonce, Height uint64 // event nonce and external height carried by the claim
 }
 
 func cloneBig(m map[string]*big.Int) map[string]*big.Int {
@@ -206,7 +249,7 @@ func (g *bridgeGhost) Clone() Ghost {
 	n := &bridgeGhost{EvNonce: cloneU(g.EvNonce), ExtHeight: cloneU(g.ExtHeight), Custody: cloneBig(g.Custody), LastExec: cloneU(g.LastExec),
 		Xfers: map[string]*xfer{}, ExecUnobs: append([]extBatch(nil), g.ExecUnobs...), BatchSeen: cloneB(g.BatchSeen),
 		LastBatchNonce: cloneU(g.LastBatchNonce), LastSeq: cloneU(g.LastSeq), Pending: append([]pendingEvent(nil), g.Pending...),
-		Debt: cloneS(g.Debt), TimedOutOK: cloneB(g.TimedOutOK)}
+		Debt: cloneS(g.Debt), TimedOutOK: cloneB(g.TimedOutOK), Withdrawn: cloneW(g.Withdrawn), ObsHeight: cloneU(g.ObsHeight), FakeAt: cloneU(g.FakeAt)}
 	for k, v := range g.Xfers {
 		c := *v
 		n.Xfers[k] = &c
@@ -269,13 +312,13 @@ func (g *bridgeGhost) Canon() string {
 	}
 	sort.Strings(xs)
 	return strings.Join([]string{canonMap(g.EvNonce), canonMap(g.ExtHeight), canonMap(g.Custody), canonMap(g.LastExec),
-		strings.Join(xs, ";"), fmt.Sprint(g.ExecUnobs), fmt.Sprint(g.Pending), canonMap(g.Debt), canonMap(g.TimedOutOK)}, "#")
+		strings.Join(xs, ";"), fmt.Sprint(g.ExecUnobs), fmt.Sprint(g.Pending), canonMap(g.Debt), canonMap(g.TimedOutOK), strings.Join(g.withdrawnKeys(), ","), canonMap(g.ObsHeight), canonMap(g.FakeAt)}, "#")
 }
 
 func (b *Bridge) NewGhost(in *hub.Instance) Ghost {
 	g := &bridgeGhost{EvNonce: map[string]uint64{}, ExtHeight: map[string]uint64{}, Custody: map[string]*big.Int{}, LastExec: map[string]uint64{},
 		Xfers: map[string]*xfer{}, BatchSeen: map[string]bool{}, LastBatchNonce: map[string]uint64{}, LastSeq: map[string]uint64{},
-		Debt: map[string]string{}, TimedOutOK: map[string]bool{}}
+		Debt: map[string]string{}, TimedOutOK: map[string]bool{}, Withdrawn: map[string]*wbatch{}, ObsHeight: map[string]uint64{}, FakeAt: map[string]uint64{}}
 	for _, c := range AllExtChains {
 		g.ExtHeight[c] = 1000
 	}
@@ -446,6 +489,19 @@ func (b *Bridge) Ops(s *HState) []engine.Op {
 		for _, pb := range b.pendingBatches(s) {
 			ops = append(ops, engine.OpN("Exec", pb.Chain, pb.Token, pb.Nonce))
 		}
+		// ... and any batch the hub has withdrawn that the external chain would still accept
+		for _, k := range g.withdrawnKeys() {
+			w := g.Withdrawn[k]
+			ops = append(ops, engine.OpN("ExecOld", w.Chain, w.Token, w.Nonce))
+		}
+	}
+	if on("FakeHeight") {
+		// one validator (a third of the power, below quorum) claims a far-ahead external height for the next nonce
+		for _, ch := range c.DepChains {
+			if g.FakeAt[ch] != g.EvNonce[ch]+1 {
+				ops = append(ops, engine.OpN("FakeHeight", ch))
+			}
+		}
 	}
 	if on("ExtAdvance") {
 		for _, ch := range c.DepChains {
@@ -541,6 +597,19 @@ func (b *Bridge) Do(in *hub.Instance, gg Ghost, op engine.Op, st *engine.Step) {
 		b.doDeposit(in, g, op, st)
 	case "Exec":
 		b.doExec(in, g, op, st)
+	case "ExecOld":
+		b.doExecOld(in, g, op, st)
+	case "FakeHeight":
+		ch := op.S[0]
+		t := b.token(ch, "hub")
+		ev := &mhubtypes.TransferToChainEvent{EventNonce: g.EvNonce[ch] + 1, ExternalCoinId: t.ExtID, Amount: sdk.NewInt(1), Fee: sdk.NewInt(0), Sender: hub.HexAddr("byz"),
+			ReceiverChainId: "hub", ExternalReceiver: "0x" + fmt.Sprintf("%x", b.Usr[0].Bytes()), ExternalHeight: g.ExtHeight[ch] + 100_000_000, TxHash: "0xfake"}
+		r := in.DeliverMsg(hub.EventMsg(b.Vals[0].Orch, ch, ev))
+		if r.OK() {
+			g.FakeAt[ch] = g.EvNonce[ch] + 1
+			st.Count("minority_far_height_claims", 1)
+		}
+		st.Obs = fmt.Sprint(r.OK())
 	case "ExtAdvance":
 		// the external chain moves far ahead (beyond every batch timeout created so far)
 		g.ExtHeight[op.S[0]] += 1_000_000
@@ -657,16 +726,16 @@ func (b *Bridge) doDeposit(in *hub.Instance, g *bridgeGhost, op engine.Op, st *e
 		// the Minter connector emits SendToHubEvent for hub-bound deposits (cosmos.CreateClaims)
 		ev = &mhubtypes.SendToHubEvent{EventNonce: g.EvNonce[ch], ExternalCoinId: t.ExtID, Amount: sdk.NewInt(amt), Sender: sender,
 			CosmosReceiver: b.Usr[0].String(), ExternalHeight: g.ExtHeight[ch], TxHash: txh}
-		g.Pending = append(g.Pending, pendingEvent{Chain: ch, Kind: "dep-hub", Denom: d, Locked: locked, Recv: "u0"})
+		g.Pending = append(g.Pending, pendingEvent{Chain: ch, Kind: "dep-hub", Denom: d, Locked: locked, Recv: "u0", EvNonce: g.EvNonce[ch], Height: g.ExtHeight[ch]})
 	} else if dest == "hub" {
 		// Hub2.sol emits TransferToChainEvent(_amount,_fee); the orchestrator copies both (build.rs)
 		ev = &mhubtypes.TransferToChainEvent{EventNonce: g.EvNonce[ch], ExternalCoinId: t.ExtID, Amount: sdk.NewInt(amt), Fee: sdk.NewInt(fee), Sender: sender,
 			ReceiverChainId: "hub", ExternalReceiver: "0x" + fmt.Sprintf("%x", b.Usr[0].Bytes()), ExternalHeight: g.ExtHeight[ch], TxHash: txh}
-		g.Pending = append(g.Pending, pendingEvent{Chain: ch, Kind: "dep-hub", Denom: d, Locked: locked, Recv: "u0"})
+		g.Pending = append(g.Pending, pendingEvent{Chain: ch, Kind: "dep-hub", Denom: d, Locked: locked, Recv: "u0", EvNonce: g.EvNonce[ch], Height: g.ExtHeight[ch]})
 	} else {
 		ev = &mhubtypes.TransferToChainEvent{EventNonce: g.EvNonce[ch], ExternalCoinId: t.ExtID, Amount: sdk.NewInt(amt), Fee: sdk.NewInt(fee), Sender: sender,
 			ReceiverChainId: dest, ExternalReceiver: hub.HexAddr("xrcpt"), ExternalHeight: g.ExtHeight[ch], TxHash: txh}
-		g.Pending = append(g.Pending, pendingEvent{Chain: ch, Kind: "dep-chain", Denom: d, Locked: locked, Recv: dest})
+		g.Pending = append(g.Pending, pendingEvent{Chain: ch, Kind: "dep-chain", Denom: d, Locked: locked, Recv: dest, EvNonce: g.EvNonce[ch], Height: g.ExtHeight[ch]})
 	}
 	if !b.observe(in, ch, ev, st) {
 		st.Count("claims_rejected", 1)
@@ -729,10 +798,47 @@ func (b *Bridge) doExec(in *hub.Instance, g *bridgeGhost, op engine.Op, st *engi
 	g.ExtHeight[ch]++
 	ev := &mhubtypes.BatchExecutedEvent{ExternalCoinId: tok, EventNonce: g.EvNonce[ch], ExternalHeight: g.ExtHeight[ch], BatchNonce: nonce,
 		TxHash: fmt.Sprintf("0xexec-%s-%d", ch, g.EvNonce[ch]), FeePaid: sdk.NewInt(3), FeePayer: hub.HexAddr("relayer")}
-	g.Pending = append(g.Pending, pendingEvent{Chain: ch, Kind: "exec", Token: tok, Nonce: nonce})
+	g.Pending = append(g.Pending, pendingEvent{Chain: ch, Kind: "exec", Token: tok, Nonce: nonce, EvNonce: g.EvNonce[ch], Height: g.ExtHeight[ch]})
 	b.observe(in, ch, ev, st)
 	st.Count("batches_executed_externally", 1)
 	st.Obs = "exec"
+}
+
+// doExecOld: a relayer submits a batch the hub has already withdrawn. The external chain judges it by its
+// own rules only; if it accepts, the hub freed a batch that could still execute.
+func (b *Bridge) doExecOld(in *hub.Instance, g *bridgeGhost, op engine.Op, st *engine.Step) {
+	ch, tok := op.S[0], op.S[1]
+	nonce := uint64(op.I[0])
+	k := fmt.Sprintf("%s|%s|%d", ch, tok, nonce)
+	w := g.Withdrawn[k]
+	if w == nil || !g.stillExecutable(w) {
+		st.Obs = "ext-reject"
+		return
+	}
+	b.v(st, "C13", "withdrawn_batch_still_executable", "CancelBatchTx", "batch %s (timeout %d) was withdrawn by the hub, yet the external chain (height %d, last executed nonce of the token %d) accepts it", k, w.Timeout, g.ExtHeight[ch], g.LastExec[ch+"|"+tok])
+	for _, id := range w.IDs {
+		if x := g.Xfers[fmt.Sprintf("%s/%d", ch, id)]; x != nil && x.Where != fmt.Sprintf("batch:%s:%d", tok, nonce) {
+			b.v(st, "C04", "executed_externally_while_elsewhere", "CancelBatchTx", "transfer %s/%d was paid out by the external chain in batch %s while the hub has it at %s", ch, id, k, x.Where)
+		}
+	}
+	g.LastExec[ch+"|"+tok] = nonce
+	ck := ch + "|" + tok
+	if g.Custody[ck] == nil {
+		g.Custody[ck] = new(big.Int)
+	}
+	for _, a := range w.Amts {
+		n, _ := new(big.Int).SetString(a, 10)
+		g.Custody[ck].Sub(g.Custody[ck], n)
+	}
+	delete(g.Withdrawn, k)
+	g.EvNonce[ch]++
+	g.ExtHeight[ch]++
+	ev := &mhubtypes.BatchExecutedEvent{ExternalCoinId: tok, EventNonce: g.EvNonce[ch], ExternalHeight: g.ExtHeight[ch], BatchNonce: nonce,
+		TxHash: fmt.Sprintf("0xexec-%s-%d", ch, g.EvNonce[ch]), FeePaid: sdk.NewInt(3), FeePayer: hub.HexAddr("relayer")}
+	g.Pending = append(g.Pending, pendingEvent{Chain: ch, Kind: "exec-old", Token: tok, Nonce: nonce, EvNonce: g.EvNonce[ch], Height: g.ExtHeight[ch]})
+	b.observe(in, ch, ev, st)
+	st.Count("withdrawn_batches_executed_externally", 1)
+	st.Obs = "exec-old"
 }
 
 func (b *Bridge) doNext(in *hub.Instance, g *bridgeGhost, dt int64, pre *view, preBal map[string]sdk.Coins, st *engine.Step) {
@@ -783,6 +889,11 @@ var seedObserved = []engine.Op{engine.OpN("Deposit", "ethereum", "hub", "hub", 0
 // (module-created, tx hash "#") now sits in an ethereum batch at height 4.
 var seedRefundBatched = []engine.Op{engine.OpN("Next", 5), engine.OpN("Deposit", "ethereum", "hub", "minter", 0, 0), engine.OpN("Next", 3601), engine.OpN("Next", 5)}
 
+// seedTwoTokenBatches: two tokens have a pending batch each on ethereum (hub: nonce 1, eth: nonce 2), heights observed.
+var seedTwoTokenBatches = []engine.Op{engine.OpN("Deposit", "ethereum", "hub", "hub", 0, 0), engine.OpN("Next", 5),
+	engine.OpN("Send", "ethereum", "hub", 0, 0, 0), engine.OpN("ReqBatch", "ethereum", "hub"),
+	engine.OpN("Send", "ethereum", "eth", 0, 0, 0), engine.OpN("ReqBatch", "ethereum", "eth")}
+
 func bridgeCfgFor(prop, tier string) (BridgeCfg, engine.Config) {
 	thorough := tier == "thorough"
 	cfg := BridgeCfg{Prop: prop, Tokens: stdTokens(18), Powers: []int64{10, 10, 10}, Users: 1,
@@ -795,7 +906,7 @@ func bridgeCfgFor(prop, tier string) (BridgeCfg, engine.Config) {
 	switch prop {
 	case "C04":
 		cfg.Ops = opsSet("Next", "Send", "Cancel", "ReqBatch", "Exec", "Deposit", "ExtAdvance", "NextTimeout")
-		cfg.Seeds = [][]engine.Op{{}, seedObserved, seedRefundBatched}
+		cfg.Seeds = [][]engine.Op{{}, seedObserved, seedRefundBatched, seedTwoTokenBatches}
 	case "C10":
 		cfg.Ops = opsSet("Next", "Send", "ReqBatch")
 		cfg.Fees = []int64{7, 7, 50}
@@ -817,11 +928,11 @@ func bridgeCfgFor(prop, tier string) (BridgeCfg, engine.Config) {
 		cfg.Amounts = []int64{1_000_000_000_000_007} // 1000 external units + dust at 6 decimals
 		cfg.Fees = []int64{7_000_000_000_001}
 	case "C13":
-		cfg.Ops = opsSet("Next", "Send", "ReqBatch", "Exec", "Deposit", "ExtAdvance")
+		cfg.Ops = opsSet("Next", "Send", "ReqBatch", "Exec", "Deposit", "ExtAdvance", "FakeHeight")
 		cfg.SendChains = []string{"ethereum", "minter", "bsc"}
 		cfg.Fees = []int64{7}
 		cfg.DepChains = []string{"ethereum", "bsc"}
-		cfg.Seeds = [][]engine.Op{seedObserved}
+		cfg.Seeds = [][]engine.Op{seedObserved, seedTwoTokenBatches}
 		if !thorough {
 			ec.MaxDepth = 5
 		}
@@ -840,7 +951,7 @@ func bridgeCfgFor(prop, tier string) (BridgeCfg, engine.Config) {
 		cfg.Tokens = stdTokens(6)
 		cfg.Amounts = []int64{1_000_000_000_000_007}
 		cfg.Fees = []int64{7_000_000_000_001}
-		cfg.Seeds = [][]engine.Op{{}, seedObserved}
+		cfg.Seeds = [][]engine.Op{{}, seedObserved, seedTwoTokenBatches}
 	}
 	return cfg, ec
 }
@@ -868,7 +979,17 @@ func init() {
 		ec2.Deadline = ec.Deadline / 3
 		return []MultiCase{{Name: "oracle prices present", Spec: NewBridge(cfg), Cfg: ec}, {Name: "no oracle prices yet", Spec: NewBridge(np), Cfg: ec2}}, bridgeAssumptions(cfg)
 	}))
-	for _, p := range []string{"C04", "C10", "C12", "C13", "C15"} {
+	Register("C13", MultiRunner(func(tier string) ([]MultiCase, []string) {
+		cfg, ec := bridgeCfgFor("C13", tier)
+		a, bb := cfg, cfg
+		a.Seeds = [][]engine.Op{seedObserved}
+		bb.Seeds = [][]engine.Op{seedTwoTokenBatches}
+		ecb := ec
+		ecb.MaxDepth = ec.MaxDepth - 1
+		ecb.Deadline = ec.Deadline / 2
+		return []MultiCase{{Name: "from observed heights", Spec: NewBridge(a), Cfg: ec}, {Name: "from two pending batches of different tokens on ethereum", Spec: NewBridge(bb), Cfg: ecb}}, bridgeAssumptions(cfg)
+	}))
+	for _, p := range []string{"C04", "C10", "C12", "C15"} {
 		prop := p
 		Register(prop, BFSRunner(func(tier string) (Spec, engine.Config, []string) {
 			cfg, ec := bridgeCfgFor(prop, tier)
